@@ -144,16 +144,17 @@ CLAIMS = {
    technique="Lean 4 proof (frame / soundness theorems of the tenant layer; refutation of search isolation by witness) + differential correspondence against the real kyrodb_server binary over gRPC/HTTP + model-independent non-interference replay",
    text="Model Server/Tenant.lean (API key -> tenant, global id = index<<32|local id, server-owned keys, tenant/namespace checks, "
         "post-filtered search). Theorems: C10_reserved_never_shown, C10_reserved_not_settable, C10_namespace_not_settable, "
-        "C10_point_read_is_own, C10_namespace_selector, C10_write_frame_insert/_delete/_update (a write of tenant B leaves every "
-        "read of tenant A unchanged, colliding local ids included), C10_search_sound (every result is the caller's: id range, stored "
+        "C10_point_read_is_own, C10_namespace_selector, C10_write_frame_insert/_delete/_update/_batchDeleteIds/_batchDeleteFilter/"
+        "_bulkInsert (a write of tenant B leaves every read of tenant A unchanged, colliding local ids included), "
+        "C10_filter_blind_to_reserved + C10_reserved_filter_refused_* (client filters cannot see the server-owned keys; fix 7ce87e7), C10_search_sound (every result is the caller's: id range, stored "
         "index, namespace, public metadata), C10_search_isolated_partial (isolation when the candidate window covers the collection) "
         "and C10_search_count_leak (the full statement is FALSE: A's result count depends on B's data). Tie: ~45 (quick) random "
         "multi-tenant RPC histories against the REAL kyrodb_server binary (built from the working tree each run) - every answer "
         "compared with the model - and each history replayed per tenant with the other tenants' requests removed.",
    note="Partial, two known findings (KF-C10-shared-index-post-filter, KF-C10-flush-count). Not modelled: TLS, rate limiting, "
         "Health/Metrics (excluded by the property), timing side channels. Search order computed in the driver (Float, exact on the "
-        "generated dyadic coordinates), ties reported. Batch-delete / bulk frame theorems are not stated yet (covered by the "
-        "correspondence and the replay oracle).",
+        "generated dyadic coordinates), ties reported. BulkLoadHnsw frame theorem not stated (covered by the correspondence "
+        "and the replay oracle).",
    design="§3 C10"),
  "C14": dict(
    engine="rpc+conc",
@@ -161,13 +162,15 @@ CLAIMS = {
    text="Invariant Inv (unique global ids; every document lies in the id range of the tenant whose index it stores; count used for "
         "admission = live documents; count <= limit). Theorems C14_insert_exact (overwrite and engine-refused write included), "
         "C14_delete_exact, C14_update_exact (an update cannot move a document to another tenant), C14_batchDeleteIds_exact "
-        "(duplicates/absent ids), C14_batchDeleteFilter_exact, C14_bulkInsert_exact, C14_restart_exact (recount), C14_step_exact, "
-        "C14_partial (ANY sequence of these from the empty server), C14_never_over_limit, C14_not_refused_below_limit. Tie: ~45 (quick) "
+        "(duplicates/absent ids), C14_batchDeleteFilter_exact, C14_bulkInsert_exact, C14_bulkLoad_exact (reserve/release of the new ids; "
+        "Lemmas/TenantBulk), C14_restart_exact (recount), C14_step_exact, C14_sequential (ANY sequence of these from the empty "
+        "server), C14_never_over_limit, C14_not_refused_below_limit. Concurrent RPC pairs: explored on the REAL handlers (build-time "
+        "copy of kyrodb_server.rs in the harness) under the controlled scheduler - every final state counted = live = usage. Tie: ~45 (quick) "
         "random write histories near limits of 2-6 against the REAL server binary with restarts; after every probe: counted "
         "(limit - fresh inserts admitted) = live (BulkQuery census) = /usage vector_count; every answer compared with the model.",
-   note="Partial: BulkLoadHnsw's reserve/release arithmetic is modelled and compared on every run but its preservation proof is "
-        "missing; concurrent RPC pairs are outside the sequential model (see DESIGN §3 C14 for the schedule exploration and its "
-        "status). Engine-side refusals = wrong dimension only (I/O failure paths: C03).",
+   note="Partial only in that the theorems are sequential: concurrent RPCs are decided by schedule exploration (lock-acquisition "
+        "granularity, preemption bound 2, pairs + random triples; streaming RPCs sequential only). Engine-side refusals = wrong "
+        "dimension only (I/O failure paths: C03). One defect found and repaired (fix 9bf38f7).",
    design="§3 C14"),
  "C13": dict(
    engine="persist+codec",
